@@ -25,6 +25,25 @@ func Lint(cfg *Config) []string {
 			probs = append(probs, fmt.Sprintf("dangling-backend:%s:%s", where, name))
 		}
 	}
+	// a public port of a ConfigMap tcp service (`listen _tcp_*`) that another proxy binds too: HAProxy cannot
+	// start both listeners on one address
+	binds := map[string][]string{}
+	tcpBind := map[string]bool{}
+	for _, sec := range cfg.allProxies() {
+		for _, l := range sec.Lines {
+			if l[0] == "bind" && len(l) > 1 && !strings.HasPrefix(l[1], "unix@") {
+				binds[l[1]] = append(binds[l[1]], sec.Name)
+				if sec.Kind == "listen" && strings.HasPrefix(sec.Name, "_tcp_") {
+					tcpBind[l[1]] = true
+				}
+			}
+		}
+	}
+	for _, addr := range SortedKeys(binds) {
+		if tcpBind[addr] && len(binds[addr]) > 1 {
+			probs = append(probs, fmt.Sprintf("duplicate-bind:%s:%s", addr, strings.Join(binds[addr], "+")))
+		}
+	}
 	for _, sec := range cfg.allProxies() {
 		names := map[string]bool{}
 		ids := map[string]bool{}
